@@ -48,6 +48,9 @@ Mon0 == [ np     |-> 0,       \* probes created so far
           ht     |-> <<>>,    \* handle -> virtual time of the subscription
           pat    |-> <<>>,    \* probe -> virtual time of each of its notifications
           t9     |-> [init |-> FALSE],   \* C09: state of the timed reference automaton of the (single) subscription
+          cpos   |-> <<>>,    \* C14: handle -> how many results its future / stream has yielded
+          tdelay |-> <<>>,    \* C19: per scheduled task <<handle, kind, delay or period, time it was scheduled>> (task id = position)
+          truns  |-> <<>>,    \* C19: task id -> how often its body ran
           tsince |-> -1,      \* C16: virtual time at which the (first) subscriber saw its terminal (-1: not yet)
           runT   |-> <<>>,    \* virtual times at which the executor ran to idle ("runall")
           g      |-> <<>>,    \* global timeline <<a, t, v>> of the notifications sent into the hot inputs
@@ -81,7 +84,19 @@ NewHandle(m, root) ==
 
 (* --- one probe notification --- *)
 LogOne(m, e, C) ==
-  IF e.t = "P"      \* not a notification: what peek() answered inside the callback (C12: the most recent value)
+  IF e.t = "R" \/ e.t = "U"   \* C19: the body of harness task (e.p - 100) ran with sequence number e.v / its subscription was unsubscribed
+  THEN LET k == e.p - 100
+           td == m.tdelay[k]
+           h == td[1]
+           n == GetI(m.truns, k)
+           ok == IF e.t = "U" THEN TRUE
+                 ELSE /\ ~GetB(m.unsubd, h)                                   \* never after unsubscribe() returned
+                      /\ ~GetB(m.closed, h) \/ td[2] = 3                      \* a handle that reported closed cannot act any more
+                      /\ e.v = I(n)                                           \* once / consecutive sequence numbers
+                      /\ (td[2] # 2 => n = 0)
+                      /\ e.at >= td[4] + (IF td[2] = 2 THEN (n + 1) * td[3] ELSE IF td[3] >= 0 THEN td[3] ELSE 0)   \* never early
+       IN [Flag(m, ~ok, "C19", C.checks) EXCEPT !.truns = IF e.t = "R" THEN SetAt(@, k, n + 1, 0) ELSE @]
+  ELSE IF e.t = "P"      \* not a notification: what peek() answered inside the callback (C12: the most recent value)
   THEN Flag(m, e.v # BLatest(m.g, Len(m.g), PA(m.hroot[GetI(m.ph, e.p)])), "C12", C.checks)
   ELSE
   LET p == e.p
@@ -324,6 +339,9 @@ MonStep(m0, step, C) ==
                LET mk == [m EXCEPT !.g = Append(@, <<0, "S", I(s.a)>>), !.connected = TRUE]
                    mh == NewHandle(mk, 0) IN
                [mh EXCEPT !.rh = Append(@, mh.nh), !.hx[mh.nh] = s.a]
+          [] s.k = "tsched" ->      \* a task handle; hroot = -(10 + kind)
+               LET mh == NewHandle(m, -10 - s.a) IN
+               [mh EXCEPT !.rh = Append(@, mh.nh), !.tdelay = Append(@, <<mh.nh, s.a, s.b, m.now>>)]
           [] s.k = "mnew" ->
                LET mh == NewHandle(m, -1) IN [mh EXCEPT !.rh = Append(@, mh.nh)]      \* root -1: a bare composite
           [] s.k = "adv" -> [m EXCEPT !.now = @ + s.a]
@@ -409,7 +427,24 @@ MonStep(m0, step, C) ==
       r10c == [Flag(Flag(r10b, o.fault = "" /\ s.k = "runall" /\ m.tsince >= 0 /\ r10b.now >= m.tsince + 1 /\ o.live # 0, "C16", checks),
                     o.fault = "" /\ term1 /\ PullSrc(r10b.hroot[1]) > 0 /\ o.cnt[CntPull] # MinPulls(r10b.hroot[1], 0), "C16", checks)
                EXCEPT !.tsince = ts]
-      r11 == Flag(r10c, "C08" \in checks /\ o.fault = "" /\ ~C08Check(r10, o), "C08", checks)
+      (* C14: conversions report the real outcome and do not stay pending once the source has terminated *)
+      is14 == "C14" \in checks /\ o.fault = "" /\ s.k \in {"fpoll", "stq"}
+      h14 == IF s.k = "fpoll" THEN r10c.rh[s.a] ELSE 1
+      x14 == r10c.hroot[h14]
+      src14 == Ref(S1(x14), r10c.g, r10c.h0[h14], Len(r10c.g), {})
+      n14 == GetI(m.cpos, h14)
+      futExp == IF src14.term = "" THEN {NoneV}
+                ELSE IF src14.term = "C"
+                THEN {IF src14.items = <<>> THEN <<"empty">> ELSE IF Len(src14.items) = 1 THEN SomeV(src14.items[1]) ELSE <<"multi">>}
+                ELSE IF src14.items = <<>> THEN {src14.ev} ELSE {src14.ev, <<"multi">>}     \* AMBIGUOUS.md: items, then an error
+      strSeq == [i \in 1..Len(src14.items) |-> SomeV(src14.items[i])]
+                \o (IF src14.term = "E" THEN <<src14.ev, <<"end">>>> ELSE IF src14.term = "C" THEN <<<<"end">>>> ELSE <<>>)
+      ok14 == IF s.k = "stq" THEN o.ret = I(IF src14.term = "C" THEN 1 ELSE IF src14.term = "E" THEN 2 ELSE 0)
+              ELSE IF Op(x14) = "to_future" THEN (IF n14 > 0 THEN TRUE ELSE o.ret \in futExp)
+              ELSE IF n14 < Len(strSeq) THEN o.ret = strSeq[n14 + 1] ELSE o.ret = NoneV
+      r10d == [Flag(r10c, is14 /\ ~ok14, "C14", checks)
+               EXCEPT !.cpos = IF is14 /\ s.k = "fpoll" /\ o.ret # NoneV THEN SetAt(@, h14, n14 + 1, 0) ELSE @]
+      r11 == Flag(r10d, "C08" \in checks /\ o.fault = "" /\ ~C08Check(r10, o), "C08", checks)
   IN [r11 EXCEPT !.lastcnt = o.cnt, !.gt = Pad(@, Len(r11.g), m.now)]
 
 RECURSIVE MonRun(_, _, _)
